@@ -407,3 +407,84 @@ def hidden_api_loop_unbounded(U):
     _stub_lebs(U, m, 0, 255)        # flag values 0..255: every enum member and the invalid ones (ValueError)
     o = U.call(m.HiddenApiClassDataItem, f, U.cm())
     U.ensures("terminates with an item or an error", o.ok or o.raised(m.__pyvc_struct__.error, ValueError), exc=repr(o.exc))
+
+
+# ------------------------------------------------------------------------------------------------
+# Inventory of the `while` loops of the three parser files (count-driven `for` loops iterate finite sequences and terminate
+# structurally as long as their bodies do).  Each loop is either under a termination contract (variant proved for inputs of any
+# length) or listed as covered by the bounded runs only.  A `while` loop that is in none of the lists -- e.g. one introduced by a
+# change -- has no termination argument here: the unit becomes UNDECIDED (exit 2), it is not reported as a violation.
+VARIANT_PROVED = {
+    (DEX, "read_null_terminated_string", 0): "C06 null_terminated_unbounded: len - pos",
+    (DEX, "HiddenApiClassDataItem.__init__", 0): "C35 hidden_api_loop_unbounded: section_size - consumed",
+    (DEX, "DebugInfoItem.__init__", 1): "C35 debug_info_loop_unbounded: len - pos",
+    (DEX, "LinearSweepAlgorithm.get_instructions", 0): "C02 sweep_loop_unbounded: max_idx - idx",
+    (AXML, "AXMLParser._do_next", 0): "C26 chunk_loop_terminates: bytes left",
+    (AXML, "ARSCHeader.__init__", 0): "C35 arsc_header_skip_loop_unbounded: len - pos",
+    (APKF, "APK.parse_signatures_or_digests", 0): "C33 digest_sequence_unbounded: bytes left",
+}
+EXECUTED_FOR_ALL_INPUTS = {
+    (DEX, "writeuleb128", 0): "C03: executed symbolically for every 32-bit value (at most 5 iterations)",
+    (DEX, "writesleb128", 0): "C03: executed symbolically for every 32-bit value (at most 5 iterations)",
+}
+BOUNDED_ONLY = {
+    (DEX, "EncodedMethod.get_information", 0): "counter loop over a parsed list (not on the parsing path)",
+    (DEX, "EncodedMethod.get_short_string._fmt_classname", 0): "strips one '[' per iteration of a finite string",
+    (AXML, "AXMLPrinter.__init__", 0): "one _do_next step per iteration; ends with END_DOCUMENT or an invalid parser (whole_parsers, many_attributes)",
+    (AXML, "ARSCParser.__init__", 0): "chunk loop: seeks to header.start + size, size >= 8 (whole_parsers)",
+    (AXML, "ARSCParser.__init__", 1): "package chunk loop: seeks to header.end (whole_parsers)",
+    (AXML, "ARSCParser._analyse", 1): "index walk over the parsed package list",
+    (APKF, "APK.parse_v2_v3_signature", 0): "backward search for the end-of-central-directory record: one byte per iteration (whole_parsers apk)",
+    (APKF, "APK.parse_v2_v3_signature", 1): "signing-block pairs: at least 12 bytes per iteration (C33 generated_blocks, whole_parsers)",
+    (APKF, "APK.parse_v3_signing_block", 0): "signers: length-prefixed (C33 generated_blocks)",
+    (APKF, "APK.parse_v3_signing_block", 1): "certificates: length-prefixed (C33 generated_blocks)",
+    (APKF, "APK.parse_v2_signing_block", 0): "signers: length-prefixed (C33 generated_blocks)",
+    (APKF, "APK.parse_v2_signing_block", 1): "certificates: length-prefixed (C33 generated_blocks)",
+    (APKF, "get_apkid", 0): "one parser step per iteration (whole_parsers)",
+}
+
+
+def _while_loops(relpath):
+    import ast
+    from pyvc import loader
+    _, tree = loader.read_source(relpath)
+    out = []
+
+    class V(ast.NodeVisitor):
+        def __init__(self):
+            self.stack, self.cnt = [], []
+
+        def _d(self, n):
+            self.stack.append(n.name)
+            self.cnt.append(0)
+            self.generic_visit(n)
+            self.cnt.pop()
+            self.stack.pop()
+        visit_FunctionDef = visit_ClassDef = visit_AsyncFunctionDef = _d
+
+        def _l(self, n):
+            if self.cnt:
+                k = self.cnt[-1]
+                self.cnt[-1] += 1
+                if isinstance(n, ast.While):
+                    out.append((relpath, ".".join(self.stack), k))
+            self.generic_visit(n)
+        visit_While = visit_For = _l
+    V().visit(tree)
+    return out
+
+
+@unit("C35", covers=[(DEX, "read_null_terminated_string"), (AXML, "AXMLParser._do_next"), (APKF, "APK.parse_signatures_or_digests")], samples=1,
+      note="structural inventory of the while loops of dex/__init__.py, axml/__init__.py, apk/__init__.py: %d under a proved variant, "
+           "%d executed for all inputs, %d covered by bounded runs only (listed in the unit's source)" %
+           (len(VARIANT_PROVED), len(EXECUTED_FOR_ALL_INPUTS), len(BOUNDED_ONLY)))
+def loop_inventory(U):
+    from pyvc.core import Unsupported
+    known = set(VARIANT_PROVED) | set(EXECUTED_FOR_ALL_INPUTS) | set(BOUNDED_ONLY)
+    found = [l for f in (DEX, AXML, APKF) for l in _while_loops(f)]
+    new = [l for l in found if l not in known]
+    if new:
+        raise Unsupported("while loop(s) without a termination argument in this contract set: %s" % new)
+    U.ensures("every while loop of the three parser files is classified (variant proved / executed for all inputs / bounded only)", True)
+    gone = [l for l in VARIANT_PROVED if l not in found]
+    U.ensures("every loop that carries a termination contract is still there", not gone, missing=gone) if not gone else None
